@@ -1,5 +1,6 @@
 #!/bin/sh
 # usage: mutest.sh <property> <patch.diff> [tier]   — runs a check against a scratch worktree with the patch applied
+# VERIF_ROOT=<dir> runs the machinery from a snapshot copy of /verif (so /verif can be edited meanwhile)
 set -u
 ID=$1; PATCH=$2; TIER=${3:-quick}
 S=${SCRATCH_TREE:-/tmp/scratch}
@@ -7,7 +8,8 @@ S=${SCRATCH_TREE:-/tmp/scratch}
 git -C $S checkout -q --detach $(git -C /repo rev-parse HEAD) 2>/dev/null
 git -C $S checkout -q -- . ; git -C $S clean -fdq
 if ! git -C $S apply "$PATCH" 2>/tmp/scratch.apply.err; then echo "PATCH DOES NOT APPLY: $(cat /tmp/scratch.apply.err | head -3)"; exit 3; fi
-cd /verif && VERIF_REPO=$S ./bin/vcheck $ID --tier $TIER > /tmp/mutest.$ID.out 2>&1; rc=$?
+R=${VERIF_ROOT:-/verif}
+cd $R && VERIF_ROOT=$R VERIF_REPO=$S ./bin/vcheck $ID --tier $TIER > /tmp/mutest.$ID.out 2>&1; rc=$?
 nv=$(grep -c '^VIOLATION' /tmp/mutest.$ID.out)
 echo "== $ID $(basename $(dirname $PATCH)) rc=$rc violations_listed=$nv :: $(tail -1 /tmp/mutest.$ID.out)"
 grep -m2 -A3 '^VIOLATION\|^HARNESS' /tmp/mutest.$ID.out | cut -c1-300
